@@ -61,6 +61,12 @@ def matrix_cases():
             out.append(bql.select([(A, None), (B, None)], ('table', 'm'), order_by=[(A, d), (B, d)], distinct=True, limit=lim))
             out.append(bql.select([(B, None)], ('table', 'm'), order_by=[(C, d), (A, d)], distinct=True, limit=lim))
             out.append(bql.select([(A, None), (R, None)], ('table', 'm'), order_by=[(A, d)], limit=lim))
+    # an output name that is also the name of another table column: ORDER BY takes the output column
+    for d in ('ASC', 'DESC'):
+        out.append(bql.select([(B, 'a'), (R, None)], ('table', 'm'), order_by=[(A, d)]))
+        out.append(bql.select([(['neg', A], 'a'), (R, None)], ('table', 'm'), order_by=[(['col', 'a'], d), (2, 'ASC')]))
+        out.append(bql.select([(A, 'b'), (B, 'a'), (R, None)], ('table', 'm'), order_by=[(['col', 'a'], d), (['col', 'b'], 'ASC')]))
+        out.append(bql.select([(C, 'a'), (['fn', 'sum', [A]], 'b')], ('table', 'm'), order_by=[(['col', 'b'], d), (['col', 'a'], d)]))
     # aggregate queries ordered by aggregates / keys
     cnt = ['fn', 'count', [['star']]]
     for dirs in itertools.product(['ASC', 'DESC'], repeat=2):
